@@ -1230,17 +1230,8 @@ func Versions(p *load.Program, r *report.Report) {
 			if b, isB := ssau.ConstBool(st.Val); isB && b {
 				continue
 			}
-			// `m.flag = saved` with saved loaded from the same field earlier restores a previous state
-			// (save/restore around a failed generation); it is not a clear
-			restore := true
-			lv := ssau.Leaves(st.Val)
-			for _, l := range lv {
-				lp, ok := LoadPath(l)
-				if l == nil || !ok || !samePath(lp, AddrPath(st.Addr)) || !ssau.InstrBefore(l.(ssa.Instruction), st) {
-					restore = false
-				}
-			}
-			if restore && len(lv) > 0 {
+			// non-constant stores (rollback of a saved value) are judged by UndoStores: rule undo[...]
+			if _, isConst := st.Val.(*ssa.Const); !isConst {
 				continue
 			}
 			nClr++
@@ -1598,6 +1589,319 @@ func AutoPID(p *load.Program, r *report.Report, rule string) {
 	r.Check(len(unchecked) == 0, rule, key, instrPos(p, autos[0]),
 		fmt.Sprintf("every path through the automatic assignment passes a comparison of the candidate with the PIDs in use (%d check site(s)) before the stream is registered", len(checks)),
 		"an automatically assigned PID is registered without being compared with the PIDs already in use (the explicit branch has such a loop): after AddElementaryStream({ElementaryPID: n}) with n equal to a later value of nextPID, the automatic stream gets the same PID, the second esContexts entry overwrites the first and the PMT lists the PID twice; "+strings.Join(unchecked, "; "))
+	// proven unused at the point of assignment
+	for _, st := range autos {
+		a.provenUnused(r, rule, f, m, st)
+	}
+}
+
+// memberTest is one membership test of a candidate PID against the PIDs in use.
+type memberTest struct {
+	at      ssa.Instruction // the Lookup in m.esContexts, or the comparison with a list element
+	entry   *ssa.BasicBlock // block that (re)starts the test: the lookup's block / the block loading the list
+	key     ssa.Value       // the tested value (a load of m.nextPID)
+	inUse   []ssau.Edge     // conditional edges taken when the PID is in use
+	form    string
+	problem string
+}
+
+// memberTests finds the membership tests whose tested value is loaded from m.nextPID.
+func (a *anchors) memberTests(f *ssa.Function, m ssa.Value) []memberTest {
+	var out []memberTest
+	isNext := func(v ssa.Value) bool { return isLoadOf(stripConv(v), m, a.fNextPID) }
+	for _, b := range f.Blocks {
+		for _, in := range b.Instrs {
+			switch x := in.(type) {
+			case *ssa.Lookup:
+				if !isLoadOf(x.X, m, a.fESContexts) || !isNext(x.Index) {
+					continue
+				}
+				t := memberTest{at: x, entry: b, key: stripConv(x.Index), form: "m.esContexts[uint32(m.nextPID)]"}
+				// in-use edges: Ifs on the comma-ok result (or on `value != nil`)
+				for _, bb := range f.Blocks {
+					iff, ok := bb.Instrs[len(bb.Instrs)-1].(*ssa.If)
+					if !ok {
+						continue
+					}
+					cond, neg := iff.Cond, false
+					for {
+						u, ok := cond.(*ssa.UnOp)
+						if !ok || u.Op != token.NOT {
+							break
+						}
+						cond, neg = u.X, !neg
+					}
+					hit := false
+					if ex, ok := cond.(*ssa.Extract); ok && ex.Tuple == ssa.Value(x) && ex.Index == 1 && x.CommaOk {
+						hit = true
+					} else if nc, ok := ssau.AsNilCompare(cond); ok {
+						v := nc.X
+						if ex, ok := v.(*ssa.Extract); ok && ex.Tuple == ssa.Value(x) && ex.Index == 0 {
+							v = x
+						}
+						if v == ssa.Value(x) {
+							hit = true
+							if !nc.Ne {
+								neg = !neg
+							}
+						}
+					}
+					if !hit {
+						continue
+					}
+					succ := 0
+					if neg {
+						succ = 1
+					}
+					t.inUse = append(t.inUse, ssau.Edge{If: iff, Succ: succ})
+				}
+				if len(t.inUse) == 0 {
+					t.problem = "the result of the lookup is not tested by a branch"
+				}
+				if kl, ok := t.key.(*ssa.UnOp); !ok || kl.Block() != b {
+					t.problem = "the looked-up value is not read from m.nextPID in the block of the lookup (stale copy)"
+				}
+				out = append(out, t)
+			case *ssa.BinOp:
+				if x.Op != token.EQL && x.Op != token.NEQ {
+					continue
+				}
+				for _, pair := range [][2]ssa.Value{{x.X, x.Y}, {x.Y, x.X}} {
+					ld, _, ok := a.streamElemPID(pair[0], m)
+					if !ok || !isNext(pair[1]) {
+						continue
+					}
+					t := memberTest{at: x, entry: ld.Block(), key: stripConv(pair[1]), form: "search of m.pmt.ElementaryStreams for m.nextPID"}
+					for _, bb := range f.Blocks {
+						iff, ok := bb.Instrs[len(bb.Instrs)-1].(*ssa.If)
+						if !ok || iff.Cond != ssa.Value(x) {
+							continue
+						}
+						succ := 0
+						if x.Op == token.NEQ {
+							succ = 1
+						}
+						t.inUse = append(t.inUse, ssau.Edge{If: iff, Succ: succ})
+					}
+					if len(t.inUse) == 0 {
+						t.problem = "the comparison is not tested by a branch"
+					}
+					if kl, ok := t.key.(*ssa.UnOp); !ok || !(kl.Block() == t.entry || t.entry.Dominates(kl.Block())) {
+						t.problem = "the compared value is read from m.nextPID before the search starts (stale copy)"
+					}
+					out = append(out, t)
+				}
+			}
+		}
+	}
+	return out
+}
+
+// provenUnused: the value assigned to es.ElementaryPID in the automatic branch is proven unused at
+// the point of assignment — some membership test T of the current m.nextPID (entry block E)
+// dominates the load L feeding the assignment, L cannot be reached from T's in-use edge without
+// re-entering E, and no store to m.nextPID can be followed by L without re-entering E.
+func (a *anchors) provenUnused(r *report.Report, rule string, f *ssa.Function, m ssa.Value, assign *ssa.Store) {
+	p := a.p
+	key := "auto-pid/unused-at-assignment"
+	pos := instrPos(p, assign)
+	leaves := ssau.Leaves(assign.Val)
+	var loads []*ssa.UnOp
+	for _, l := range leaves {
+		u, ok := l.(*ssa.UnOp)
+		if l == nil || !ok || !isLoadOf(l, m, a.fNextPID) {
+			r.Unknown(rule, key, pos, "the assigned value "+Describe(assign.Val)+" is not (only) a value loaded from m.nextPID")
+			return
+		}
+		loads = append(loads, u)
+	}
+	if len(loads) == 0 {
+		r.Unknown(rule, key, pos, "the assigned value has no source")
+		return
+	}
+	tests := a.memberTests(f, m)
+	if len(tests) == 0 {
+		r.Bad(rule, key, pos, "no membership test of m.nextPID (lookup in m.esContexts or search of m.pmt.ElementaryStreams) exists in "+load.FuncName(f)+": the automatic PID may already be in use")
+		return
+	}
+	var stores []*ssa.Store
+	for _, b := range f.Blocks {
+		for _, in := range b.Instrs {
+			if st, ok := in.(*ssa.Store); ok && AddrPath(st.Addr).Is(m, a.fNextPID) {
+				stores = append(stores, st)
+			}
+		}
+	}
+	// reachable(from block, target instruction) with block E removed
+	reachAvoid := func(from *ssa.BasicBlock, target ssa.Instruction, e *ssa.BasicBlock) bool {
+		return from != e && target.Block() != e && reachesAvoiding(from, target.Block(), e)
+	}
+	afterAvoid := func(src, target ssa.Instruction, e *ssa.BasicBlock) bool {
+		// can target execute after src without (re-)entering block e?
+		if src.Block() == target.Block() && ssau.IndexOf(src) < ssau.IndexOf(target) {
+			return true // straight line inside one block: nothing is re-entered
+		}
+		for _, s := range src.Block().Succs {
+			if target.Block() == e {
+				// the target is inside the test block: entering it runs the block from its top; a load
+				// after the test instruction would have to be checked separately — be conservative
+				continue
+			}
+			if reachAvoid(s, target, e) {
+				return true
+			}
+		}
+		return false
+	}
+	var why []string
+	for _, t := range tests {
+		if t.problem != "" {
+			why = append(why, t.form+": "+t.problem)
+			continue
+		}
+		bad := ""
+		for _, L := range loads {
+			sameValue := ssa.Value(L) == t.key
+			target := ssa.Instruction(L)
+			if sameValue {
+				// the assigned value is the very value that was tested: what matters is where the
+				// assignment executes
+				target = assign
+			}
+			switch {
+			case !(t.entry == target.Block() && ssau.IndexOf(t.at) < ssau.IndexOf(target)) && !(t.entry != target.Block() && t.entry.Dominates(target.Block())):
+				bad = "the test does not dominate the assignment's read of m.nextPID at " + instrPos(p, L)
+			case target.Block() == t.entry && !sameValue:
+				bad = "m.nextPID is read again inside the test block"
+			}
+			if bad != "" {
+				break
+			}
+			for _, iu := range t.inUse {
+				if edgeReachesAvoiding(iu, target.Block(), t.entry) {
+					bad = "the in-use outcome of the test can be followed by the assignment without the test being repeated (a single `if` instead of a loop): with two consecutive occupied PIDs the second one is handed out"
+				}
+			}
+			if bad != "" {
+				break
+			}
+			if !sameValue {
+				for _, s := range stores {
+					if afterAvoid(s, L, t.entry) {
+						bad = fmt.Sprintf("m.nextPID is changed at %s and then read for the assignment at %s without the new value being tested", instrPos(p, s), instrPos(p, L))
+					}
+				}
+			}
+			if bad != "" {
+				break
+			}
+		}
+		if bad == "" {
+			r.OK(rule, key, pos, fmt.Sprintf("the %s at %s dominates the read of m.nextPID that is assigned; from its in-use edge and from each of the %d stores to m.nextPID the assignment is only reachable through the test again: the assigned value was found unused", t.form, instrPos(p, t.at), len(stores)))
+			return
+		}
+		why = append(why, t.form+" at "+instrPos(p, t.at)+": "+bad)
+	}
+	r.Bad(rule, key, pos, "the automatically assigned PID is not proven unused at the point of assignment — "+strings.Join(why, " | "))
+}
+
+// edgeReachesAvoiding reports whether block `to` can be reached after taking conditional edge e
+// without entering block `avoid`. Boolean phis whose incoming value on the travelled edge is a
+// constant are tracked, and a later branch on such a phi only follows the consistent successor
+// (`found = true; break` … `if !found { break }`).
+func edgeReachesAvoiding(e ssau.Edge, to, avoid *ssa.BasicBlock) bool {
+	type state struct {
+		b     *ssa.BasicBlock
+		facts string
+	}
+	enter := func(pred, b *ssa.BasicBlock, facts map[*ssa.Phi]bool) map[*ssa.Phi]bool {
+		out := map[*ssa.Phi]bool{}
+		for k, v := range facts {
+			out[k] = v
+		}
+		idx := -1
+		for i, p := range b.Preds {
+			if p == pred {
+				idx = i
+			}
+		}
+		for _, in := range b.Instrs {
+			ph, ok := in.(*ssa.Phi)
+			if !ok {
+				break
+			}
+			delete(out, ph)
+			if idx >= 0 && isBool(ph.Type()) {
+				if v, isC := ssau.ConstBool(ph.Edges[idx]); isC {
+					out[ph] = v
+				} else if src, isPhi := ph.Edges[idx].(*ssa.Phi); isPhi {
+					if v, known := facts[src]; known {
+						out[ph] = v
+					}
+				}
+			}
+		}
+		return out
+	}
+	render := func(f map[*ssa.Phi]bool) string {
+		var ks []string
+		for k, v := range f {
+			ks = append(ks, fmt.Sprintf("%s=%v", k.Name(), v))
+		}
+		sort.Strings(ks)
+		return strings.Join(ks, ",")
+	}
+	type item struct {
+		b     *ssa.BasicBlock
+		facts map[*ssa.Phi]bool
+	}
+	from := e.If.Block()
+	first := from.Succs[e.Succ]
+	if first == avoid {
+		return false
+	}
+	start := item{first, enter(from, first, nil)}
+	seen := map[state]bool{{start.b, render(start.facts)}: true}
+	work := []item{start}
+	for len(work) > 0 {
+		it := work[len(work)-1]
+		work = work[:len(work)-1]
+		if it.b == to {
+			return true
+		}
+		succs := it.b.Succs
+		if iff, ok := it.b.Instrs[len(it.b.Instrs)-1].(*ssa.If); ok {
+			cond, neg := iff.Cond, false
+			for {
+				u, ok := cond.(*ssa.UnOp)
+				if !ok || u.Op != token.NOT {
+					break
+				}
+				cond, neg = u.X, !neg
+			}
+			if ph, ok := cond.(*ssa.Phi); ok {
+				if v, known := it.facts[ph]; known {
+					if v != neg {
+						succs = it.b.Succs[:1]
+					} else {
+						succs = it.b.Succs[1:2]
+					}
+				}
+			}
+		}
+		for _, s := range succs {
+			if s == avoid {
+				continue
+			}
+			nf := enter(it.b, s, it.facts)
+			st := state{s, render(nf)}
+			if !seen[st] {
+				seen[st] = true
+				work = append(work, item{s, nf})
+			}
+		}
+	}
+	return false
 }
 
 var _ = report.Discharged
